@@ -47,7 +47,7 @@ impl Kind {
     }
 }
 
-#[derive(Clone, Debug)]
+#[derive(Clone, Debug, PartialEq)]
 pub struct Params {
     pub maxd: f64,
     pub bias: f64,
@@ -61,8 +61,13 @@ pub struct Params {
 pub enum Call {
     Setup(usize),
     Solve(u64),
+    /// solve with a time limit that runs out DURING the call: every validity query of this call costs
+    /// one tick (so that e.g. PRM's graph search meets an expired deadline)
+    SolveTicking(u64),
     Construct,
     SetPd(usize),
+    /// assigns the planner's public parameter fields (step, goal bias, radius, build time)
+    SetParams(Params),
 }
 
 pub struct Problem<S> {
@@ -196,6 +201,27 @@ where
             AnyPlanner::Star(p) => p.solve(t),
             AnyPlanner::Conn(p) => p.solve(t),
             AnyPlanner::Prm(p) => p.solve(t),
+        }
+    }
+    fn set_params(&mut self, p: &Params) {
+        match self {
+            AnyPlanner::Rrt(x) => {
+                x.max_distance = p.maxd;
+                x.goal_bias = p.bias;
+            }
+            AnyPlanner::Star(x) => {
+                x.max_distance = p.maxd;
+                x.goal_bias = p.bias;
+                x.search_radius = p.radius;
+            }
+            AnyPlanner::Conn(x) => {
+                x.max_distance = p.maxd;
+                x.goal_bias = p.bias;
+            }
+            AnyPlanner::Prm(x) => {
+                x.connection_radius = p.radius;
+                x.timeout = p.build_ticks as f64 / 1000.0;
+            }
         }
     }
     fn snapshot(&self) -> Snapshot<SP::StateType> {
@@ -349,6 +375,7 @@ where
         .collect();
 
     let mut planner: AnyPlanner<SP> = AnyPlanner::new(kind, params);
+    let mut cur_params: Params = params.clone();
     let mut out = Vec::new();
 
     for call in calls {
@@ -358,9 +385,10 @@ where
             l.ctl.n_samples_this_call = 0;
             l.ctl.n_queries_this_call = 0;
             l.ctl.query_cap = cfg.query_cap;
+            l.ctl.tick_query = if matches!(call, Call::SolveTicking(_)) { TICK_NS } else { cfg.tick_query * TICK_NS };
             let budget = match call {
-                Call::Solve(t) => *t,
-                Call::Construct => if params.build_ticks >= u64::MAX - 1 { 5 } else { params.build_ticks },
+                Call::Solve(t) | Call::SolveTicking(t) => *t,
+                Call::Construct => if cur_params.build_ticks >= u64::MAX - 1 { 5 } else { cur_params.build_ticks },
                 _ => 0,
             };
             l.ctl.sample_cap = if cfg.wallclock {
@@ -372,6 +400,8 @@ where
             };
             (l.ctl.n_uniform, l.ctl.n_goal)
         };
+        // a time limit that runs out during the call: the clock itself costs a tick per reading
+        verif::set_clock_read_cost(if matches!(call, Call::SolveTicking(_)) { TICK_NS } else { 0 });
         LAST_PANIC.with(|p| *p.borrow_mut() = None);
         on_call(call, true);
         let res: Result<Outcome<SP::StateType>, _> = catch_unwind(AssertUnwindSafe(|| match call {
@@ -396,7 +426,12 @@ where
                     Outcome::Unit
                 }
             }
-            Call::Solve(t) => match planner.solve(Duration::from_nanos(*t * TICK_NS)) {
+            Call::SetParams(p) => {
+                planner.set_params(p);
+                cur_params = p.clone();
+                Outcome::Unit
+            }
+            Call::Solve(t) | Call::SolveTicking(t) => match planner.solve(Duration::from_nanos(*t * TICK_NS)) {
                 Ok(p) => Outcome::Path(p.0),
                 Err(e) => Outcome::Err(err_kind(&e)),
             },
@@ -411,6 +446,7 @@ where
             }
         };
         on_call(call, false);
+        verif::set_clock_read_cost(0);
         drain_hooks(&log);
         let raw = std::mem::take(&mut log.borrow_mut().raw);
         let snap = planner.snapshot();
